@@ -135,6 +135,7 @@ func (p Point) ToPb() (pb.Point, error) {
 		Value:     p.Value,
 		Text:      p.Text,
 		Time:      ts,
+		Data:      p.Data,
 		Tombstone: int32(p.Tombstone),
 		Origin:    p.Origin,
 	}, nil
@@ -148,6 +149,7 @@ func (p Point) ToSerial() (pb.SerialPoint, error) {
 		Value:     float32(p.Value),
 		Text:      p.Text,
 		Time:      p.Time.UnixNano(),
+		Data:      p.Data,
 		Tombstone: int32(p.Tombstone),
 		Origin:    p.Origin,
 	}, nil
@@ -441,6 +443,7 @@ func PbToPoint(sPb *pb.Point) (Point, error) {
 		Key:       sPb.Key,
 		Value:     sPb.Value,
 		Time:      ts,
+		Data:      sPb.Data,
 		Tombstone: int(sPb.Tombstone),
 		Origin:    sPb.Origin,
 	}
@@ -456,6 +459,7 @@ func SerialToPoint(sPb *pb.SerialPoint) (Point, error) {
 		Key:       sPb.Key,
 		Value:     float64(sPb.Value),
 		Time:      time.Unix(0, sPb.Time),
+		Data:      sPb.Data,
 		Tombstone: int(sPb.Tombstone),
 		Origin:    sPb.Origin,
 	}
